@@ -6,7 +6,7 @@ import ast
 from ..lin import Lin, Infeasible
 from ..avals import *   # noqa
 from ..avals import value_tags
-from ..decide import Runs, need_ge0, need_eq0, definite, soft, iterations
+from ..decide import Runs, need_ge0, need_eq0, definite, soft, iterations, benign_unknown
 from ..report import Ob, PROVED, REFUTED, UNDECIDED, func_where, ASSUMPTIONS, Failure
 from ..model import norm_text, AnalysisError
 from .. import seqops
@@ -348,6 +348,56 @@ def check(prog, res, tier):
            undecided=None if t_enc and t_dec and (f_enc or not f_dec) and (f_dec or not f_enc) else
            'the type dispatch or the date format look-up of one direction was not observed')
     res.add(ob)
+
+    # ---- C01.d the public entry points work with the configuration, encoding and bitmap rendering their caller gives them
+    # (both directions: what dumps writes under a custom configuration, loads must read under the same one)
+    for pub, inner in (('iso8583.dumps', 'iso8583._dict_to_iso8583'), ('iso8583.loads', 'iso8583._iso8583_to_dict')):
+        if not (prog.has_func(pub) and prog.has_func(inner)):
+            continue
+        pfi_, ifi_ = prog.func(pub), prog.func(inner)
+
+        def inner_cap(it, fi_, args, kwargs, node, self_obj):
+            names = [a.arg for a in fi_.node.args.args]
+            b = dict(zip(names, args))
+            b.update({k: v for k, v in kwargs.items() if k != '**'})
+            it.user.setdefault('inner', []).append(b)
+            return it.sym_bytes('encoded') if 'dict_to' in fi_.name else DictV(open_=True, desc='message')
+
+        def entry_pub(it, pfi_=pfi_):
+            cfg = common.generic_bit_config(it)
+            it.binds[('dict', cfg.id)] = True        # a configuration that is given (non-empty)
+            enc, hb = codec(it), SymV('hex_bitmap', 'bool')
+            arg = DictV(open_=True, desc='message') if pfi_.name == 'dumps' else it.sym_bytes('message')
+            it.user.update(cfg=cfg, enc=enc, hb=hb)
+            return it.call_function(pfi_, [arg], {'encoding': enc, 'iso_config': cfg, 'hex_bitmap': hb})
+        runs_pub = Runs(prog, entry_pub, summaries={ifi_.short: inner_cap}, res=res)
+        seen_pub = {'n': 0}
+
+        def chk_pub(p, mode, pfi_=pfi_, ifi_=ifi_):
+            if p.outcome != 'return':
+                return []
+            calls = p.interp.user.get('inner', [])
+            if not calls:
+                return [soft(f'{pfi_.name} does not reach {ifi_.name}')]
+            seen_pub['n'] += mode == 'inv'
+            u = p.interp.user
+            vals = [p.interp.resolve(v) for b in calls for v in b.values()]
+            fails = []
+            if not any(v is u['cfg'] for v in vals):
+                fails.append(definite(f'{pfi_.name} does not hand the field configuration given by its caller to {ifi_.name}: the message '
+                                      f'is encoded / decoded with another configuration (the packaged one) whatever the caller passes',
+                                      firm=True))
+            if not any(v is u['enc'] for v in vals):
+                fails.append(definite(f'{pfi_.name} does not hand the encoding given by its caller to {ifi_.name}', firm=True))
+            if not any(v is u['hb'] for v in vals):
+                fails.append(definite(f'{pfi_.name} does not hand the hex_bitmap option given by its caller to {ifi_.name}', firm=True))
+            return fails
+        from ..decide import require_instances
+        res.add(require_instances(
+            runs_pub.judge('C01.d', f'{pfi_.name} passes the configuration, encoding and bitmap rendering given by its caller on to '
+                                    f'{ifi_.name}', func_where(pfi_), f'{ifi_.name}(obj, iso_config, encoding, hex_bitmap)', chk_pub,
+                           rule=f'C01.d.options.{pfi_.name}', unknown_ok=benign_unknown),
+            seen_pub['n'], f'a call of {ifi_.name} from {pfi_.name}'))
 
     # ---- C01.e processors
     procs = set()
